@@ -26,10 +26,12 @@ Print Assumptions settings_tail.
 (* The table. *)
 Theorem settings_table_quiet : forall debug ots, s_quiet (io_settings debug ots) = has_token T_quiet ots || has_token T_q ots.
 Proof. exact quiet_table. Qed.
+Print Assumptions settings_table_quiet.
 Theorem settings_table_verbosity : forall ots,
   s_verbosity (io_settings false ots) =
     if has_token T_vvv ots then DEBUG else if has_token T_vv ots then VERY_VERBOSE else if has_token T_v ots then VERBOSE else NORMAL.
 Proof. exact verbosity_table. Qed.
+Print Assumptions settings_table_verbosity.
 Theorem settings_table_ansi : forall debug ots stream_ansi,
   decorated (io_settings debug ots) stream_ansi =
     if has_token T_no_ansi ots then false else if has_token T_ansi ots then true else stream_ansi.
@@ -37,6 +39,7 @@ Proof. exact ansi_table. Qed.
 Theorem settings_table_interaction : forall debug ots,
   s_interactive (io_settings debug ots) = negb (has_token T_no_interaction ots || has_token T_n ots).
 Proof. exact interactive_table. Qed.
+Print Assumptions settings_table_interaction.
 Print Assumptions settings_table_ansi.
 
 (* With C10: under the quiet switch no write path of any output emits anything - error reports included. *)
